@@ -4,6 +4,7 @@ import (
 	"bytes"
 	"encoding/hex"
 	"fmt"
+	"reflect"
 
 	"verifharness/core"
 	"verifharness/gen"
@@ -64,10 +65,70 @@ func checkC01(c *core.Ctx, pc pcase) {
 		c.Violate(pc.p.Name, "bytes-differ", sh, pc.in, describeDiff(consumed, out.Ser))
 		return
 	}
+	// serialising again gives the same bytes, also after the caller has overwritten the first
+	// serialisation it was handed (a serialiser must not hand out its own storage)
+	// (types that *are* their bytes — Integer, I2PString — legitimately share that storage)
+	if v := reflect.ValueOf(out.Val); out.Val != nil && len(out.Ser) > 0 && !isBytesType(v) {
+		for i := range out.Ser {
+			out.Ser[i] ^= 0xA5
+		}
+		again, ok := reserialise(v)
+		again = append([]byte{}, again...)
+		for i := range out.Ser {
+			out.Ser[i] ^= 0xA5
+		}
+		if ok && !bytes.Equal(again, consumed) {
+			c.Violate(pc.p.Name, "second-serialisation-differs-after-first-was-overwritten", sh, pc.in, describeDiff(consumed, again))
+			return
+		}
+		if ok {
+			c.Bucket("reserialised-after-overwrite/" + pc.p.Kind)
+		}
+	}
 	if pc.class != "wellformed" {
 		c.Bucket("accepted-noncanonical-roundtrip-ok/" + pc.p.Kind)
 	}
 	c.Sample(gen.Shape{"op": pc.p.ID(), "class": pc.class, "consumed": len(consumed), "input_head": hex.EncodeToString(head(pc.in, 24))})
+}
+
+// isBytesType: the value is a byte slice / array type (or a pointer to one).
+func isBytesType(v reflect.Value) bool {
+	t := v.Type()
+	for t.Kind() == reflect.Ptr {
+		t = t.Elem()
+	}
+	return t.Kind() == reflect.Slice || t.Kind() == reflect.Array
+}
+
+// reserialise calls the value's serialiser again by reflection: Bytes() ([]byte) or
+// Bytes() ([]byte, error) or Data() []byte (mappings). ok=false when the value has none.
+func reserialise(v reflect.Value) (b []byte, ok bool) {
+	defer func() {
+		if recover() != nil {
+			b, ok = nil, false
+		}
+	}()
+	for _, name := range []string{"Bytes", "Data"} {
+		m := v.MethodByName(name)
+		if !m.IsValid() || m.Type().NumIn() != 0 || m.Type().NumOut() < 1 {
+			continue
+		}
+		res := m.Call(nil)
+		r0 := res[0]
+		if r0.Kind() == reflect.Array && r0.Type().Elem().Kind() == reflect.Uint8 {
+			out := make([]byte, r0.Len())
+			reflect.Copy(reflect.ValueOf(out), r0)
+			return out, true
+		}
+		if r0.Kind() != reflect.Slice || r0.Type().Elem().Kind() != reflect.Uint8 {
+			continue
+		}
+		if len(res) > 1 && !res[1].IsNil() {
+			return nil, false
+		}
+		return r0.Bytes(), true
+	}
+	return nil, false
 }
 
 func classHead(s string) string {
